@@ -1,14 +1,25 @@
 #!/bin/bash
-# MANIFEST.setup_cmd: build the Lean project (all models, proofs, per-property drivers) and the Go harnesses, offline.
+# MANIFEST.setup_cmd: build, offline, the Lean modules (models, proofs, per-property drivers) and the Go
+# harnesses of every registered property (conf/CNN.json). Work-in-progress files of unregistered
+# properties are not built.
 set -e
 cd "$(dirname "$0")/.."
 export GOFLAGS=-mod=mod GOPROXY=off GOSUMDB=off GOTOOLCHAIN=local CGO_ENABLED=0
 ids=$(ls conf | grep -E '^C[0-9]+\.json$' | sed 's/\.json//')
-exes=""
-for i in $ids; do exes="$exes xcdrv_$(echo $i | tr A-Z a-z)"; done
-(cd lean && lake build XC $exes)
+targets=""
+for i in $ids; do
+  low=$(echo $i | tr A-Z a-z)
+  mods=$(python3 -c "import json;print(' '.join(json.load(open('conf/$i.json'))['lean_modules']))")
+  targets="$targets $mods xcdrv_$low"
+done
+(cd lean && lake build $targets)
 cp /repo/go.sum harness/go.sum
 mkdir -p .build/bin
 GO=$(command -v go1.26 || command -v go)
-(cd harness && $GO build -tags verif ./... )
+for i in $ids; do
+  low=$(echo $i | tr A-Z a-z)
+  for tags in $(python3 -c "import json;print(' '.join(v['tags'] for v in json.load(open('conf/$i.json')).get('variants',[{'tags':'verif'}])))"); do
+    (cd harness && $GO build -tags "$tags" -o /dev/null ./cmd/$low)
+  done
+done
 echo "setup ok: $(echo $ids | wc -w) properties"
